@@ -55,10 +55,17 @@ let new_sink text = { text; b = Buffer.create 64; h = 0 }
 (* A token is one harness call.  Two tokens are compound on the model side:
      PG,k,j  = put(k, get(j))           -> model history  [LGet j; LPut k v]  (no put when get throws)
      EN,k    = n = find(k); erase(n)    -> model history  [SFind k; SErase k] (no erase when the found key is not k)
+     @OP,j,.. (cache) = OP with the key argument a reference to the stored value of j, obtained by get(j)
+                        -> model history [LGet j; OP v ..]; prints ~ when get(j) throws
+     @OP,j (tree)     = OP with the key argument a reference to the key of the node find(j) returns
+                        -> model history [SFind j; OP x]; prints ~ when the tree is empty
+   The argument value is taken at call time, so the model operation is the plain one.
    so the run is done token by token on the extracted lrun / srun (both take the start state). *)
 let lru_show sk i r =
   if i > 0 then sep sk ' ';
   match r with
+  | None -> res sk '~' (-1) (-1)
+  | Some r -> match r with
   | RUnit -> res sk 'u' (-1) (-1)
   | RErr -> res sk '!' (-1) (-1)
   | RBool b -> res sk 'b' (if b then 1 else 0) (-1)
@@ -73,20 +80,37 @@ let rstep1 l o = match lref_run l [o] with (l1, [(r, _)]) -> (l1, r) | _ -> fail
 (* returns (valid, note) *)
 let run_lru ismap toks sk =
   let s = ref lru_init and l = ref [] and valid = ref true and differs = ref false in
-  List.iteri (fun i tok ->
-    let (r, rr) =
+  let rec do_tok tok =
+      if tok.[0] = '@' then begin
+        match split ',' (String.sub tok 1 (String.length tok - 1)) with
+        | nm :: j :: rest ->
+          let (s1, g) = lstep1 !s (LGet (n j)) and (l1, g') = rstep1 !l (LGet (n j)) in
+          s := s1; l := l1;
+          (match g, g' with
+           | RVal _, RVal _ ->
+             (* the reference returned by get(j) is the stored value: read it from the recency lists *)
+             let v = snd (List.find (fun (k, _) -> k = n j) !s.lst) in
+             let v' = snd (List.find (fun (k, _) -> k = n j) !l) in
+             if v <> v' then differs := true;
+             do_tok (String.concat "," (nm :: string_of_int (int_of_nat v) :: rest))
+           | RErr, RErr -> (None, None)
+           | _ -> differs := true; (None, None))
+        | _ -> failwith ("bad alias token " ^ tok)
+      end else
       match split ',' tok with
       | ["PG"; k; j] ->
         let (s1, g) = lstep1 !s (LGet (n j)) and (l1, g') = rstep1 !l (LGet (n j)) in
         s := s1; l := l1;
         let put st step v = let (st1, _) = step st (LPut (n k, v)) in st1 in
-        ((match g with RVal v -> s := put !s lstep1 v; RUnit | x -> x),
-         (match g' with RVal v -> l := put !l rstep1 v; RUnit | x -> x))
+        (Some (match g with RVal v -> s := put !s lstep1 v; RUnit | x -> x),
+         Some (match g' with RVal v -> l := put !l rstep1 v; RUnit | x -> x))
       | _ ->
         let o = lru_op ismap tok in
         if not (lvalid !l [o]) then valid := false;
         let (s1, r) = lstep1 !s o and (l1, rr) = rstep1 !l o in
-        s := s1; l := l1; (r, rr) in
+        s := s1; l := l1; (Some r, Some rr) in
+  List.iteri (fun i tok ->
+    let (r, rr) = do_tok tok in
     if r <> rr || !s.lst <> !l then differs := true;
     lru_show sk i r) toks;
   sep sk '|';
@@ -100,9 +124,18 @@ let rrun1 dup l o = match rrun dup l [o] with (l1, [out]) -> (l1, out) | _ -> fa
 
 let run_splay dup toks sk =
   let s = ref st_init and l = ref [] and differs = ref false in
-  List.iteri (fun i tok ->
-    if i > 0 then sep sk ' ';
-    let ((r, z), ks) =
+  let rec do_tok tok =
+      if tok.[0] = '@' then begin
+        match split ',' (String.sub tok 1 (String.length tok - 1)) with
+        | [nm; j] ->
+          let (s1, ((f, z1), ks1)) = sstep1 dup !s (SFind (n j)) and (l1, _) = rrun1 dup !l (SFind (n j)) in
+          s := s1; l := l1;
+          (match f with
+           | SFound (Some x) -> do_tok (nm ^ "," ^ string_of_int (int_of_nat x))
+           | _ -> if !l <> [] then differs := true; ((None, z1), ks1))
+        | _ -> failwith ("bad alias token " ^ tok)
+      end else
+      let ((r, z), ks) =
       match split ',' tok with
       | ["EN"; k] ->
         let (s1, ((f, z1), ks1)) = sstep1 dup !s (SFind (n k)) and (l1, _) = rrun1 dup !l (SFind (n k)) in
@@ -120,7 +153,13 @@ let run_splay dup toks sk =
         s := s1; l := l1;
         if abs_out [o] [out] <> [rout] then differs := true;
         out in
+      ((Some r, z), ks) in
+  List.iteri (fun i tok ->
+    if i > 0 then sep sk ' ';
+    let ((r, z), ks) = do_tok tok in
     (match r with
+     | None -> res sk '~' (-1) (-1)
+     | Some r -> match r with
      | SBool b -> res sk 'b' (if b then 1 else 0) (-1)
      | SFound None -> res sk 'f' (-1) (-1); sep sk '-'
      | SFound (Some k) -> res sk 'f' (int_of_nat k) (-1)
